@@ -65,6 +65,15 @@ func (FramesFaults) Generate(seed uint64, tier string) engine.Plan {
 		p.Msgs = append(p.Msgs, m)
 	}
 	p.Policies = []simio.ChunkPolicy{genPolicy(r), genPolicy(r)}
+	if p.Family != "corrupt" && r.Chance(1, 60) {
+		// a frame around/above the 1 MiB incremental-read threshold (fault
+		// positions are then sampled, not enumerated)
+		p.Msgs[r.Intn(len(p.Msgs))] = genBigMsg(r)
+		if len(p.Msgs) > 2 {
+			p.Msgs = p.Msgs[:2]
+		}
+		p.Policies = []simio.ChunkPolicy{genBigPolicy(r), genBigPolicy(r)}
+	}
 	p.Off = r.PickInt64(0, 7, 4096, 1<<40)
 	p.Extra = []int{0, r.PickInt(1, 2, 5), r.PickInt(31, 32, 40, 100)}
 	return p
@@ -124,6 +133,17 @@ func points(explicit []int, seed uint64, n, hi int, frameStarts []int) (pts []in
 	for _, s := range frameStarts {
 		for _, d := range []int{-1, 0, 1, 15, 16, 17, 23, 24, 25, 31, 32, 33, 34, 40} {
 			add(s + d)
+		}
+	}
+	// buffer-size boundaries inside a body: an implementation that reads or
+	// writes in chunks changes behaviour exactly there
+	for _, s := range frameStarts {
+		for _, c := range []int{512, 4096, 32 << 10, 64 << 10, 1 << 20} {
+			for m := 1; m <= 2; m++ {
+				for d := -1; d <= 1; d++ {
+					add(s + 32 + m*c + d)
+				}
+			}
 		}
 	}
 	add(hi)
@@ -339,6 +359,9 @@ func (FramesFaults) Execute(pl engine.Plan, c *engine.RunCtx) *engine.Failure {
 							st.Inc("probe.C07.cut_exactly_after_header")
 						default:
 							st.Inc("probe.C07.cut_in_body")
+							if lens[i] > 1<<20+32 {
+								st.Inc("probe.C07.cut_in_body_above_1MiB")
+							}
 						}
 						done = true
 					}
@@ -724,8 +747,8 @@ func (FramesFaults) Shrink(pl engine.Plan) []engine.Plan {
 	}
 	for i, m := range p.Msgs {
 		if m.Len > 0 {
-			for _, nl := range []int{0, 1, m.Len / 2} {
-				if nl != m.Len {
+			for _, nl := range []int{0, 1, m.Len / 2, 1<<20 + 1} {
+				if nl < m.Len {
 					q := clone()
 					q.Msgs[i].Len = nl
 					q.Points = nil
